@@ -2,7 +2,22 @@ import ParryModel.C13.Lemmas
 import Mathlib.Analysis.SpecialFunctions.Integrals.Basic
 import Mathlib.Analysis.SpecialFunctions.Sqrt
 /-!
-# C13 property theorems: mass properties.
+# C13 property theorems: mass properties
+
+All statements are about the model functions of `C13/Model.lean` instantiated at the lawful instance `fieldNum K sq`
+(any linearly ordered field `K`; `LawfulSqrt sq` is a hypothesis wherever the stored `1/√I` is read back), and — in the last
+section — at `ℝ` with `Real.sqrt`, `Real.pi` and Mathlib's `intervalIntegral`.
+
+Specification vocabulary (defined in `C13/Lemmas.lean`, short, to be trusted):
+* `massOf a = a.invMass⁻¹`, `inertiaOf a = (a.invI²)⁻¹`, `momentAbout a p = inertiaOf a + massOf a · |p − a.com|²` (parallel axis);
+* `SameMoments a b`: equal mass, first moment `mass·com` and `momentAbout · p` for every `p`;
+* `totMass/totFx/totFy/totMoment ps p`: the sums of those over a list of parts;
+* `cross t`, `sumSqSides t`, `shoelace/shoelaceFx/shoelaceFy/shoelaceJ`, `SeesCCW`: triangle / polygon closed forms;
+* `massOf3`, `inertiaOf3`, `steiner3`, `madd`, `mtr`: the 3-D analogues.
+
+Sections: triangle · `+`/`Sum`/`-`/`transform_by` algebra (2-D) · 2-D trimesh = Σ triangles · convex polygon = Σ fans and its
+closed form · closed forms of the primitives (2-D, 3-D) · 3-D additivity before the eigen-decomposition and 3-D covariance ·
+integrals over ℝ (triangle, rectangle, ball, cylinder, cone, end-cap centroids) · non-vacuity examples.
 -/
 namespace C13
 open Model Model.Mass
@@ -19,6 +34,8 @@ theorem triangle_unit_inertia_about_a (t : Triangle2 K) :
   have h6 : ((mkRat 6 1 : ℚ) : K) = 6 := by norm_num
   rw [h6]; ring
 
+/-- **Kahan's formula is the shoelace area**: with a lawful square root, `Triangle::area` (Kahan's product on the three sorted
+side lengths, clamped at 0, square root, `/4`) equals `|(b−a)×(c−a)| / 2`, for every triangle (degenerate ones included). -/
 theorem triangle_area_eq (hs : LawfulSqrt sq) (t : Triangle2 K) :
     letI := fieldNum K sq
     triArea t = |(t.b.sub t.a).perp (t.c.sub t.a)| / 2 := by
@@ -51,6 +68,9 @@ theorem triangle_area_eq (hs : LawfulSqrt sq) (t : Triangle2 K) :
     nlinarith [mul_self_eq_mul_self_iff.1 h1]
   rw [h3]; ring
 
+/-- **`+` is additive in the moments (2-D)**, for all operands with non-negative masses — `zero()`, massless bodies that still
+carry inertia and two massless operands included: the mass, the first moment `mass·com` and the second moment about *every*
+point `p` (`I + m|p − com|²`, parallel-axis) of `a + b` are the sums of those of `a` and `b`. -/
 theorem add_moments (hs : LawfulSqrt sq) (a b : MP2 K) (ha : 0 ≤ a.invMass) (hb : 0 ≤ b.invMass) :
     letI := fieldNum K sq
     massOf (a.add b) = massOf a + massOf b ∧
@@ -91,6 +111,7 @@ theorem add_moments (hs : LawfulSqrt sq) (a b : MP2 K) (ha : 0 ≤ a.invMass) (h
       simp only at this
       linear_combination this
 
+/-- `Triangle::center` (`a/3 + b/3 + c/3`) is the centroid `(a + b + c)/3`. -/
 theorem triangle_center_eq (t : Triangle2 K) :
     letI := fieldNum K sq
     triCenter t = ⟨(t.a.x + t.b.x + t.c.x) / 3, (t.a.y + t.b.y + t.c.y) / 3⟩ := by
@@ -98,6 +119,8 @@ theorem triangle_center_eq (t : Triangle2 K) :
   simp only [triCenter, V2.add, V2.smul, fieldNum_lit, h3]
   congr 1 <;> ring
 
+/-- **Parallel-axis shift to the centroid**: the unit polar moment about vertex `a` minus `|g − a|²` is the unit polar moment
+about the centroid `g`, the vertex-symmetric closed form `(|ab|² + |bc|² + |ca|²)/36`. -/
 theorem triangle_centroid_inertia (t : Triangle2 K) :
     letI := fieldNum K sq
     triUnitInertia t - ((triCenter t).sub t.a).normSq = sumSqSides t / 36 := by
@@ -106,6 +129,8 @@ theorem triangle_centroid_inertia (t : Triangle2 K) :
   simp only [triUnitInertia, triCenter, V2.add, V2.smul, V2.sub, V2.normSq, V2.dot, fieldNum_lit, h3, h6, sumSqSides]
   ring
 
+/-- **`from_triangle` (corrected)** on a non-degenerate triangle, density `ρ > 0`: mass `ρ·area`, centre of mass at the centroid,
+inertia about the centre of mass `mass·(|ab|² + |bc|² + |ca|²)/36` (invariant under relabelling the vertices). -/
 theorem from_triangle_spec (hs : LawfulSqrt sq) (ρ : K) (hρ : 0 < ρ) (t : Triangle2 K) (hnd : cross t ≠ 0) :
     letI := fieldNum K sq
     massOf (fromTriangle ρ t) = ρ * (|cross t| / 2) ∧
@@ -127,6 +152,7 @@ theorem from_triangle_spec (hs : LawfulSqrt sq) (ρ : K) (hρ : 0 < ρ) (t : Tri
     positivity
   rw [sqrt_roundtrip sq hs _ hI]; ring
 
+/-- `Triangle::area` is never negative. -/
 theorem triangle_area_nonneg (hs : LawfulSqrt sq) (t : Triangle2 K) : 0 ≤ @triArea K (fieldNum K sq) t := by
   rw [triangle_area_eq sq hs]; positivity
 
@@ -149,6 +175,9 @@ theorem from_triangle_obs (hs : LawfulSqrt sq) (ρ : K) (hρ : 0 ≤ ρ) (t : Tr
       positivity
     rw [sqrt_roundtrip sq hs _ hI]
 
+/-- **Refutation of the pinned `from_triangle`**: it reports the inertia about vertex `a`, i.e. the correct inertia about the
+centre of mass **plus** `mass·|g − a|²` — strictly too large for every non-degenerate triangle (unit right triangle: `1/6`
+instead of `1/18`, see the example at the end of this file). -/
 theorem from_triangle_pinned_overestimates (hs : LawfulSqrt sq) (ρ : K) (hρ : 0 ≤ ρ) (t : Triangle2 K) :
     letI := fieldNum K sq
     inertiaOf (fromTrianglePinned ρ t) =
@@ -352,6 +381,7 @@ theorem add_zero_neutral (a : MP2 K) :
   · unfold MP2.add
     rw [if_pos hz]
 
+/-- the stored inverse mass of `a + b` is non-negative when those of `a` and `b` are (so `+` can be iterated) -/
 theorem add_invMass_nonneg (a b : MP2 K) (ha : 0 ≤ a.invMass) (hb : 0 ≤ b.invMass) :
     0 ≤ (@MP2.add K (fieldNum K sq) a b).invMass := by
   unfold MP2.add
@@ -438,6 +468,7 @@ theorem transformBy_add (hs : LawfulSqrt sq) (a b : MP2 K) (ha : 0 ≤ a.invMass
   · intro q
     rw [← act_invAct sq m hu q, s4, g4, a4, b4, h4]
 
+/-- folding `+` over a list adds up the moments: `moments (foldl (+) acc ps) = moments acc + Σ moments ps` (non-negative masses) -/
 theorem foldl_add_moments (hs : LawfulSqrt sq) (ps : List (MP2 K)) (h : ∀ a ∈ ps, 0 ≤ a.invMass)
     (acc : MP2 K) (hacc : 0 ≤ acc.invMass) :
     letI := fieldNum K sq
@@ -933,6 +964,39 @@ theorem transformBy3_covariant (p : MP3 K) (m : Iso3 K) :
   rw [inverse_mul, toMat_mul, toMat_mul, toMat_inverse sq ⟨m.qi, m.qj, m.qk, m.qw⟩]
   simp only [m3_mul_assoc]
   rfl
+
+/-- **Compound = Σ transformed parts** (2-D): the moments of `from_compound` are the sums of the moments of the parts moved
+by their isometries; with `transformBy_covariant`, each summand is the part's own moment about the pulled-back point. -/
+theorem compound_moments (hs : LawfulSqrt sq) (parts : List (Iso2 K × MP2 K)) (h : ∀ s ∈ parts, 0 ≤ s.2.invMass) :
+    letI := fieldNum K sq
+    let moved := parts.map fun s => s.2.transformBy s.1
+    massOf (fromCompound2 parts) = totMass moved ∧
+    (fromCompound2 parts).com.x * massOf (fromCompound2 parts) = totFx moved ∧
+    (fromCompound2 parts).com.y * massOf (fromCompound2 parts) = totFy moved ∧
+    ∀ p : V2 K, momentAbout (fromCompound2 parts) p = totMoment moved p := by
+  intro moved
+  apply sum_moments sq hs
+  intro a ha
+  simp only [List.mem_map] at ha
+  obtain ⟨s, hs', rfl⟩ := ha
+  exact h s hs'
+
+/-- principal inertias are never negative (2-D and 3-D accessors), whatever the stored fields -/
+theorem principal_inertia_nonneg (p : MP2 K) (p3 : MP3 K) :
+    letI := fieldNum K sq
+    0 ≤ p.principalInertia ∧ 0 ≤ p3.principalInertia.x ∧ 0 ≤ p3.principalInertia.y ∧ 0 ≤ p3.principalInertia.z := by
+  simp only [MP2.principalInertia, MP3.principalInertia, inv_spec]
+  exact ⟨inv_nonneg.2 (mul_self_nonneg _), inv_nonneg.2 (mul_self_nonneg _), inv_nonneg.2 (mul_self_nonneg _), inv_nonneg.2 (mul_self_nonneg _)⟩
+
+/-- the principal frame stays a unit quaternion under `transform_by` with a unit rotation (`|q₁q₂|² = |q₁|²|q₂|²`) -/
+theorem transformBy3_frame_unit (p : MP3 K) (m : Iso3 K)
+    (hm : m.qi * m.qi + m.qj * m.qj + m.qk * m.qk + m.qw * m.qw = 1)
+    (hp : p.frame.i * p.frame.i + p.frame.j * p.frame.j + p.frame.k * p.frame.k + p.frame.w * p.frame.w = 1) :
+    letI := fieldNum K sq
+    let f := (p.transformBy m).frame
+    f.i * f.i + f.j * f.j + f.k * f.k + f.w * f.w = 1 := by
+  simp only [MP3.transformBy, Quat.mul, Iso3.qmul]
+  linear_combination (p.frame.i * p.frame.i + p.frame.j * p.frame.j + p.frame.k * p.frame.k + p.frame.w * p.frame.w) * hm + hp
 
 /-! ## Integrals over ℝ: the closed forms are the moments of the uniformly filled shapes -/
 section Integrals
